@@ -264,6 +264,36 @@ def unseeded_birthday(ctx, aotools, rng, n):
                   "%d unseeded %s screens: only %d distinct" % (m, kind, len(set(ds))), {"kind": kind, "calls": m})
 
 
+def reinitialised_objects(ctx, aotools, rng):
+    """The public make_initial_screen() called again on a used object (and after assigning another random_seed): same seed and
+    parameters give the same initial screen and the same rows as the first time / as a fresh object."""
+    for kind, params in (("vk", {"nx": 9, "ps": 0.1, "r0": 0.2, "L0": 20.0, "extra": 2}), ("fried", {"nx": 9, "ps": 0.1, "r0": 0.2, "L0": 20.0, "extra": 1})):
+        s0, s1 = int(rng.integers(0, 2 ** 31)), int(rng.integers(0, 2 ** 31))
+        spec0 = {"kind": kind, "params": params, "seed": {"int": s0}}
+        o = isolated.create(aotools, spec0)
+        first = [digest(isolated.output_of(o))]
+        for _ in range(int(rng.integers(2, 7))):
+            o.add_row()
+            first.append(digest(isolated.output_of(o)))
+        hostile(ctx, aotools, rng)
+        o.make_initial_screen()
+        again = [digest(isolated.output_of(o))]
+        for _ in range(len(first) - 1):
+            o.add_row()
+            again.append(digest(isolated.output_of(o)))
+        ctx.case("reinitialised:" + kind, key=("reinit", kind, s0), nontrivial=True, sample={"kind": kind, "seed": s0, "rows": len(first) - 1})
+        ctx.count("reinitialisations")
+        ctx.check(first == again, "not_reproducible:%s:after_make_initial_screen" % kind,
+                  "make_initial_screen() on a used %s object does not reproduce its initial screen / rows" % kind, {"kind": kind, "seed": s0})
+        o.random_seed = s1
+        o.make_initial_screen()
+        o.add_row()
+        f = isolated.create(aotools, {"kind": kind, "params": params, "seed": {"int": s1}})
+        f.add_row()
+        ctx.check(digest(isolated.output_of(o)) == digest(isolated.output_of(f)), "not_reproducible:%s:reseeded_object" % kind,
+                  "a %s object re-initialised with random_seed = s differs from a fresh object with that seed" % kind, {"kind": kind, "seed": s1})
+
+
 def congruent_seeds(ctx, aotools, rng):
     """Seeds that differ by a multiple of 2^32 / 2^64 are different seeds."""
     s0 = int(rng.integers(0, 2 ** 31))
@@ -358,4 +388,5 @@ def run(ctx, spec):
     for p in range(spec["threaded"]):
         run_threaded(ctx, aotools, rng, p)
     congruent_seeds(ctx, aotools, rng)
+    reinitialised_objects(ctx, aotools, rng)
     unseeded_birthday(ctx, aotools, rng, 1500 if spec["programs"] <= 2 else 6000)
